@@ -52,4 +52,9 @@ VF_E void to_string_21_ll(long long v, size_t* size, char* out) { ts<21>(v, size
 VF_E void to_string_21_ull(unsigned long long v, size_t* size, char* out) { ts<21>(v, size, out); }
 VF_E void to_string_21_long(long v, size_t* size, char* out) { ts<21>(v, size, out); }
 VF_E void to_string_21_ulong(unsigned long v, size_t* size, char* out) { ts<21>(v, size, out); }
+
+// the C-library grammar (to_integer_c_options: '+', '-' on unsigned types, 0x prefix / base 0, saturation) at 8 bits, so that overflow
+// combined with a sign is reachable with short strings (strtoul & co. instantiate it at 64 bits only)
+VF_E void to_integer_c_u8(char const* s, size_t n, unsigned char base, char const** end, int* err, unsigned char* value) { auto r = etl::strings::to_integer<unsigned char, etl::strings::to_integer_c_options>(etl::string_view{s, n}, base); *end = r.end; *err = int(r.error); *value = r.value; }
+VF_E void to_integer_c_i8(char const* s, size_t n, signed char base, char const** end, int* err, signed char* value) { auto r = etl::strings::to_integer<signed char, etl::strings::to_integer_c_options>(etl::string_view{s, n}, base); *end = r.end; *err = int(r.error); *value = r.value; }
 }
